@@ -150,6 +150,54 @@ def _case_e2e(p):
     return out
 
 
+def case_ble_resume_refused(p):
+    """A BlePairing that verified once reconnects; its resume request is answered with an error / with a resume reply whose tag comes from a
+    wrong secret / the fallback full verify is refused at M4.  The operation fails, and nothing of the application travels to that peer in the
+    clear afterwards."""
+    from vt.env.blerig import BleRig
+    from vt.ref import tlv8
+
+    rig = BleRig(seed=p.get("seed", 0))
+    out = []
+    try:
+        rig.run(rig.pairing.get_characteristics([(1, 10)]), horizon=120)
+        if not rig.acc.m3_ok:
+            return [("e2e:ble:honest-session-does-not-interoperate", {})]
+        rig.run(rig.pairing.close())
+        how = p["how"]
+        if how == "error":
+            rig.acc.resume_reply_override = [(hap.T_STATE, b"\x02"), (hap.T_ERROR, b"\x02")]
+        elif how == "wrong-tag":
+            rig.acc.resume_reply_override = [(hap.T_STATE, b"\x02"), (hap.T_METHOD, bytes([hap.M_RESUME])), (hap.T_SESSID, b"\x11" * 8), (hap.T_ENC, b"\x22" * 16)]
+        elif how == "m4-refused":
+            rig.acc.resumable.clear()  # (the accessory forgot the session: full verify follows)
+            rig.acc.controllers.clear()  # ... and no longer knows this controller: M4 carries the authentication error
+        plain = []
+        orig = rig.acc.gatt_write
+
+        def gatt_write(iid, data, orig=orig):
+            if rig.acc.secure is None and iid not in (22, 21):
+                plain.append((iid, bytes(data)[:8]))
+            return orig(iid, data)
+
+        rig.acc.gatt_write = gatt_write
+        raised = []
+        for call in (rig.pairing.put_characteristics([(1, 9, True)]), rig.pairing.get_characteristics([(1, 9)])):
+            try:
+                rig.run(call, horizon=120)
+                raised.append(None)
+            except Exception as e:  # noqa: BLE001
+                raised.append(type(e).__name__)
+        det = {"how": how, "outcomes": raised, "plain_requests": [(i, d.hex()) for i, d in plain][:3]}
+        if plain:
+            out.append((f"e2e:ble:application-request-sent-in-the-clear-after-refused-verify:{how}", det))
+        if how != "m4-refused" and raised[0] is None and rig.acc.secure is None:
+            out.append((f"e2e:ble:operation-succeeds-without-a-verified-session:{how}", det))
+    finally:
+        rig.close()
+    return out
+
+
 def case_two_pairings(p):
     """Two pairings with different accessories in one process (BLE keeps a resumable session per pairing).  What one pairing learnt in its
     session is its own: the other pairing's first pair-verify is a full one - it has no session to resume - and ends with keys the OTHER
@@ -181,10 +229,11 @@ def case_two_pairings(p):
     return out
 
 
-CASES = {"e2e": case_e2e, "two_pairings": case_two_pairings}
+CASES = {"e2e": case_e2e, "two_pairings": case_two_pairings, "ble_resume_refused": case_ble_resume_refused}
 
 
 def plan():
     return [("e2e", [{"rec": 0, "eph": 0, "style": tr, "transport": tr, "fault": f}]) for tr in ("ip", "coap", "ble") for f in FAULTS] + \
         [("e2e", [{"rec": 0, "eph": 0, "style": "ip", "transport": "ip", "fault": f}]) for f in IP_ONLY_FAULTS] + \
-        [("two_pairings", [{"rec": 0, "eph": 0, "style": "ble", "transport": "ble", "fault": "two-pairings"}])]
+        [("two_pairings", [{"rec": 0, "eph": 0, "style": "ble", "transport": "ble", "fault": "two-pairings"}])] + \
+        [("ble_resume_refused", [{"rec": 0, "eph": 0, "style": "ble", "transport": "ble", "fault": "resume-refused:" + h_, "how": h_}]) for h_ in ("error", "wrong-tag", "m4-refused")]
